@@ -3,18 +3,22 @@ use crate::engine::{Ctx, DynCheck};
 pub mod c01;
 pub mod c02;
 pub mod c06;
+pub mod c09;
+pub mod c10;
 pub mod c12;
 pub mod c13;
 pub mod c14;
 pub mod c17;
 
-pub const ALL: &[&str] = &["C01", "C02", "C06", "C12", "C13", "C14", "C17"];
+pub const ALL: &[&str] = &["C01", "C02", "C06", "C09", "C10", "C12", "C13", "C14", "C17"];
 
 pub fn run(ctx: &Ctx) -> bool {
     match ctx.prop.as_str() {
         "C01" => c01::run(ctx),
         "C02" => c02::run(ctx),
         "C06" => c06::run(ctx),
+        "C09" => c09::run(ctx),
+        "C10" => c10::run(ctx),
         "C12" => c12::run(ctx),
         "C13" => c13::run(ctx),
         "C14" => c14::run(ctx),
@@ -29,6 +33,8 @@ pub fn checks(id: &str) -> Vec<Box<dyn DynCheck>> {
         "C01" => c01::checks(),
         "C02" => c02::checks(),
         "C06" => c06::checks(),
+        "C09" => c09::checks(),
+        "C10" => c10::checks(),
         "C12" => c12::checks(),
         "C13" => c13::checks(),
         "C14" => c14::checks(),
